@@ -161,6 +161,8 @@ class Differ:
             for lnode, rnode, max_match in unmatched_lnodes:
                 if max_match >= self.F and rnode in rnodes:
                     self.append_match(lnode, rnode, max_match)
+                    # This node is now taken
+                    rnodes.remove(rnode)
                 else:
                     lnodes.append(lnode)
 
